@@ -368,9 +368,11 @@ func BalanceWithRacks(members []GroupMember, topics map[string]int32, partitionR
 		return b.into()
 	}
 	b.parseMemberMetadata()
+	b.vtInit()
 	b.assignUnassignedAndInitGraph()
 	b.initPlanByNumPartitions()
 	b.balance()
+	b.vt('Z', -1, -1, -1)
 	return b.into()
 }
 
@@ -556,6 +558,7 @@ func (b *balancer) assignUnassignedAndInitGraph() {
 			topicNum := b.partOwners[partNum]
 			if len(topicPotentials[topicNum]) == 0 { // all prior subscriptions stopped wanting this partition
 				partNums.remove(partNum)
+				b.vt('D', memberNum, -1, partNum)
 				continue
 			}
 			memberTopics := b.members[memberNum].Topics
@@ -565,6 +568,7 @@ func (b *balancer) assignUnassignedAndInitGraph() {
 			}
 			if !memberStillWantsTopic {
 				partNums.remove(partNum)
+				b.vt('D', memberNum, -1, partNum)
 				continue
 			}
 			partitionConsumers[partNum] = partitionConsumer{uint16(memberNum), uint16(memberNum)}
@@ -600,6 +604,7 @@ func (b *balancer) assignUnassignedAndInitGraph() {
 			}
 			assigned := potentials[0]
 			b.plan[assigned].add(int32(partNum))
+			b.vt('A', int(assigned), -1, int32(partNum))
 			(&membersByPartitions{potentials, b.plan}).fix0()
 			partitionConsumers[partNum].memberNum = assigned
 		}
@@ -635,6 +640,7 @@ func (b *balancer) assignUnassignedAndInitGraph() {
 				}
 			}
 			b.plan[leastConsumingPotential].add(int32(partNum))
+			b.vt('A', int(leastConsumingPotential), -1, int32(partNum))
 			partitionConsumers[partNum].memberNum = leastConsumingPotential
 		}
 	}
@@ -688,6 +694,7 @@ func (b *balancer) tryRestickyStales(
 		currentOwner := partitionConsumers[staleNum].memberNum
 		if currentOwner == unassignedPart {
 			b.plan[lastOwnerNum].add(staleNum)
+			b.vt('R', int(lastOwnerNum), -1, staleNum)
 			partitionConsumers[staleNum] = partitionConsumer{lastOwnerNum, lastOwnerNum}
 			continue
 		}
@@ -696,6 +703,7 @@ func (b *balancer) tryRestickyStales(
 		if len(*lastOwnerPartitions)+1 < len(*currentOwnerPartitions) {
 			currentOwnerPartitions.remove(staleNum)
 			lastOwnerPartitions.add(staleNum)
+			b.vt('R', int(lastOwnerNum), -1, staleNum)
 			// partitionConsumers seeds the steal graph's edge
 			// ownership (cxns) on the complex path. If we move the
 			// partition in the plan but not here, a later steal of
@@ -776,6 +784,7 @@ func (b *balancer) assignRackAware(
 			continue
 		}
 		b.plan[candidate].add(int32(partNum))
+		b.vt('A', int(candidate), -1, int32(partNum))
 		rh.mbp.fix0()
 		partitionConsumers[partNum] = partitionConsumer{candidate, candidate}
 	}
@@ -863,6 +872,8 @@ func (b *balancer) balance() {
 			dstPartitions := &b.plan[dst]
 
 			dstPartitions.add(srcPartitions.takeEnd())
+			b.vt('G', int(src), int(dst), (*dstPartitions)[len(*dstPartitions)-1])
+			b.vt('S', int(dst), -1, -1)
 		}
 
 		nextUp := b.findLevel(min.level + 1)
@@ -905,6 +916,7 @@ func (b *balancer) balanceComplex() {
 				for _, segment := range stealPath {
 					b.reassignPartition(segment.src, segment.dst, segment.part)
 				}
+				b.vt('S', int(memberNum), -1, -1)
 				if len(max.members) == 0 {
 					break
 				}
@@ -913,6 +925,7 @@ func (b *balancer) balanceComplex() {
 
 			// If we could not find a steal path, this
 			// member is not static (will never grow).
+			b.vt('U', int(memberNum), -1, -1)
 			level.removeMember(memberNum)
 			if len(level.members) == 0 {
 				b.planByNumPartitions.delete(b.planByNumPartitions.min())
@@ -930,6 +943,7 @@ func (b *balancer) reassignPartition(src, dst uint16, partNum int32) {
 
 	srcPartitions.remove(partNum)
 	dstPartitions.add(partNum)
+	b.vt('G', int(src), int(dst), partNum)
 
 	b.fixMemberLevel(
 		b.planByNumPartitions.findWith(func(n *partitionLevel) int {
